@@ -36,6 +36,8 @@ THEOREMS = [
     "Nix.C05.accept_role_iff_same_block",
     "Nix.C05.role_links_target_itself",
     "Nix.C05.accept_feature_data_iff_same_block",
+    "Nix.C05.feature_data_links_target_itself",
+    "Nix.C05.metadata_links_target_itself",
     "Nix.C05.refused_unchanged",
     "Nix.C05.linked_ticks_current_data",
     "Nix.C05.linked_ticks_follow_writes",
